@@ -107,3 +107,110 @@ verif_proof! { [C38]
     #[kani::unwind(4)]
     fn c38_exact_domain_len2() { exact_domain::<2>(); }
 }
+
+// Two-hot definition check (any summation order gives the same exact result): the vectors are
+// equal (zero) except at two symbolic positions k1 != k2, where they differ by small integers
+// v1, v2. Every product and partial sum is exact in f32, so the squared distance must be exactly
+// v1^2 + v2^2: an element that is dropped, counted twice or paired with the wrong partner shows up.
+// Lengths are chosen on both sides of the 8-lane boundary and with every kind of remainder.
+fn two_hot<const N: usize>() {
+    let k1: usize = kani::any();
+    let k2: usize = kani::any();
+    kani::assume(k1 < N && k2 < N && k1 != k2);
+    let v1: i8 = kani::any();
+    let v2: i8 = kani::any();
+    kani::assume(v1 >= -8 && v1 <= 8 && v2 >= -8 && v2 <= 8);
+    let a = [0.0f32; N];
+    let mut b = [0.0f32; N];
+    b[k1] = f32::from(v1);
+    b[k2] = f32::from(v2);
+    let want = f32::from(i16::from(v1) * i16::from(v1) + i16::from(v2) * i16::from(v2));
+    let got = l2_distance_squared_simd(&a, &b);
+    assert!(got == want, "[C38] squared L2 distance differs from the definition on a two-hot pair (an element is dropped, repeated or mispaired)");
+    let back = l2_distance_squared_simd(&b, &a);
+    assert!(back == want, "[C38] squared L2 distance is not symmetric on a two-hot pair");
+    kani::cover!(want == 128.0, "both components at the extreme");
+}
+verif_proof! { [C38]
+    #[kani::unwind(11)]
+    fn c38_two_hot_len9() { two_hot::<9>(); }
+}
+verif_proof! { [C38]
+    #[kani::unwind(9)]
+    fn c38_two_hot_len7() { two_hot::<7>(); }
+}
+verif_proof! { [C38]
+    #[kani::unwind(18)]
+    fn c38_two_hot_len16() { two_hot::<16>(); }
+}
+verif_proof! { [C38]
+    #[kani::unwind(25)]
+    fn c38_two_hot_len23() { two_hot::<23>(); }
+}
+
+// Models of the three SSE intrinsics the `wide` crate lowers f32x8 arithmetic to on this target
+// (two 4-lane halves): IEEE lane-wise operations, which is their architectural definition.
+// Needed because Kani attaches an integer-overflow check to float `simd_sub/add/mul`.
+#[cfg(all(kani, feature = "simd"))]
+mod sse_model {
+    use core::arch::x86_64::__m128;
+    fn lanes(v: __m128) -> [f32; 4] { unsafe { core::mem::transmute(v) } }
+    fn pack(l: [f32; 4]) -> __m128 { unsafe { core::mem::transmute(l) } }
+    pub(crate) fn sub_ps(a: __m128, b: __m128) -> __m128 { let (x, y) = (lanes(a), lanes(b)); pack([x[0] - y[0], x[1] - y[1], x[2] - y[2], x[3] - y[3]]) }
+    pub(crate) fn add_ps(a: __m128, b: __m128) -> __m128 { let (x, y) = (lanes(a), lanes(b)); pack([x[0] + y[0], x[1] + y[1], x[2] + y[2], x[3] + y[3]]) }
+    pub(crate) fn mul_ps(a: __m128, b: __m128) -> __m128 { let (x, y) = (lanes(a), lanes(b)); pack([x[0] * y[0], x[1] * y[1], x[2] * y[2], x[3] * y[3]]) }
+}
+#[cfg(all(kani, feature = "simd"))]
+kani::stub_set!(pub(crate) sse_stubs,
+    stub(core::arch::x86_64::_mm_sub_ps, crate::simd::verif_simd::sse_model::sub_ps),
+    stub(core::arch::x86_64::_mm_add_ps, crate::simd::verif_simd::sse_model::add_ps),
+    stub(core::arch::x86_64::_mm_mul_ps, crate::simd::verif_simd::sse_model::mul_ps),
+);
+#[cfg(all(kani, feature = "simd"))]
+verif_proof! { [C38]
+    #[kani::unwind(9)]
+    #[kani::use_stub_set(crate::simd::verif_simd::sse_stubs)]
+    fn c38_simd_two_hot_len7() { two_hot::<7>(); }
+}
+#[cfg(all(kani, feature = "simd"))]
+verif_proof! { [C38]
+    #[kani::unwind(11)]
+    #[kani::use_stub_set(crate::simd::verif_simd::sse_stubs)]
+    fn c38_simd_two_hot_len9() { two_hot::<9>(); }
+}
+#[cfg(all(kani, feature = "simd"))]
+verif_proof! { [C38]
+    #[kani::unwind(18)]
+    #[kani::use_stub_set(crate::simd::verif_simd::sse_stubs)]
+    fn c38_simd_two_hot_len16() { two_hot::<16>(); }
+}
+#[cfg(all(kani, feature = "simd"))]
+verif_proof! { [C38]
+    #[kani::unwind(25)]
+    #[kani::use_stub_set(crate::simd::verif_simd::sse_stubs)]
+    fn c38_simd_two_hot_len23() { two_hot::<23>(); }
+}
+#[cfg(all(kani, feature = "simd"))]
+verif_proof! { [C38]
+    #[kani::unwind(11)]
+    #[kani::use_stub_set(crate::simd::verif_simd::sse_stubs)]
+    fn c38_simd_zero_on_equal_len4() { zero_on_equal::<4>(); }
+}
+#[cfg(all(kani, feature = "simd"))]
+verif_proof! { [C38]
+    #[kani::unwind(11)]
+    #[kani::use_stub_set(crate::simd::verif_simd::sse_stubs)]
+    fn c38_simd_zero_on_equal_len9() { zero_on_equal::<9>(); }
+}
+#[cfg(all(kani, feature = "simd"))]
+verif_proof! { [C38]
+    #[kani::unwind(11)]
+    #[kani::use_stub_set(crate::simd::verif_simd::sse_stubs)]
+    fn c38_simd_non_negative_len2() { non_negative::<2>(); }
+}
+#[cfg(all(kani, feature = "simd"))]
+verif_proof! { [C38]
+    #[kani::unwind(10)]
+    #[kani::use_stub_set(crate::simd::verif_simd::sse_stubs)]
+    fn c38_simd_non_negative_len8() { non_negative::<8>(); }
+}
